@@ -488,6 +488,45 @@ fn gen_utf8_text(ctx: &Ctx, rep: &mut Report, r: &mut Rng) {
     }
 }
 
+/// generator 10: one grammar element repeated a thousand to a million times in front of, inside
+/// or behind an otherwise valid sentence. A parser that recurses or loops per element (tag blocks,
+/// delimiters, separators, digits, checksum digits) must come back with a value - deep recursion
+/// ends the process, which the driver reports as a violation with the last traced input.
+fn gen_repetition(ctx: &Ctx, rep: &mut Report, r: &mut Rng) {
+    let body = "AIVDM,1,1,,A,15RTgt0PAso;90TKcjM8h6g208CQ,0";
+    let x = nmea_ref::xor(body.as_bytes());
+    let good = format!("!{}*{:02X}", body, x).into_bytes();
+    let tokens: [&[u8]; 14] = [b"\\a\\", b"\\\\", b"\\", b"!", b"$", b"!$", b",", b"*", b"0", b"9", b"!AIVDM,", b"\\s:1*00\\", b"\r", b" "];
+    let counts: &[usize] = if ctx.thorough() { &[1_000, 50_000, 400_000, 1_000_000, 3_000_000] } else { &[1_000, 50_000, 400_000, 1_000_000] };
+    let mut item = 3000u64;
+    for tok in tokens.iter() {
+        for &n in counts {
+            for place in 0..3u8 {
+                if !ctx.mine(item) {
+                    item += 1;
+                    continue;
+                }
+                item += 1;
+                let rept: Vec<u8> = tok.iter().cycle().take(tok.len() * n).cloned().collect();
+                let line: Vec<u8> = match place {
+                    0 => [rept.as_slice(), good.as_slice()].concat(),
+                    1 => {
+                        // inside: after the start delimiter's address field
+                        let mut l = good[..7].to_vec();
+                        l.extend_from_slice(&rept);
+                        l.extend_from_slice(&good[7..]);
+                        l
+                    }
+                    _ => [good.as_slice(), rept.as_slice()].concat(),
+                };
+                let mut h = Hist::new();
+                h.feed(rep, "repetition", line, r.bool());
+                h.feed(rep, "repetition-after", good.clone(), true);
+            }
+        }
+    }
+}
+
 pub fn run(ctx: &Ctx, rep: &mut Report) {
     // one very long unarmor call (std build, one shard): past 2^31 bits a signed 32-bit bit offset
     // overflows; only a panic counts here (the value is C03's)
@@ -498,6 +537,7 @@ pub fn run(ctx: &Ctx, rep: &mut Report) {
         }
     }
     let mut r = ctx.rng("c01");
+    gen_repetition(ctx, rep, &mut r);
     gen_utf8_text(ctx, rep, &mut r);
     gen_huge(ctx, rep, &mut r);
     gen_long_groups(ctx, rep, &mut r);
